@@ -111,6 +111,9 @@ def gen_plan(prop, r, tier, run):
         # a database file shared with another writer on its own connection
         cfg['db_file'] = True
         cfg['wal'] = r.chance(0.6)
+        # the user's home directory holds a default connection file for
+        # sqlite that names some other database
+        cfg['conn_file_in_home'] = r.chance(0.4)
     ops = []
     if r.chance(0.3):
         ops.append({'op': 'insert', 'rows': gen_rows(r, cols,
@@ -240,6 +243,21 @@ def execute(plan):
                 if cfg.get('wal'):
                     ctx.wconn.execute('PRAGMA journal_mode=WAL')
                 ctx.stats['probes']['database_file_with_second_writer'] += 1
+                if cfg.get('conn_file_in_home'):
+                    other = W.path('data', 'other.sqlite3')
+                    oc = sqlite3.connect(other)
+                    oc.execute('CREATE TABLE %s (%s)' % (
+                        cfg['table'], ', '.join('%s %s' % (q(c['name']),
+                                                           c['type'])
+                                                for c in cfg['columns'])))
+                    oc.commit()
+                    oc.close()
+                    with io.open(W.path('home', '.tdda_db_conn_sqlite'),
+                                 'w') as f:
+                        f.write(json.dumps({'dbtype': 'sqlite',
+                                            'db': other}))
+                    ctx.stats['faults'][
+                        'default_connection_file_names_other_db'] += 1
             conn = drivers.database_connection_sqlite(None, None, dbname,
                                                       None, None)
             ctx.conn = conn
